@@ -448,6 +448,8 @@ func (g *Gen) checkFunction(name string, p *PropConfig, bl *Baseline, tier strin
 	}
 }
 
+const slowClaimLimit = 20.0 // seconds
+
 func cmdCheck(args []string) {
 	fs := flag.NewFlagSet("check", flag.ExitOnError)
 	tier := fs.String("tier", env("VERIF_TIER", "quick"), "quick|thorough")
@@ -508,10 +510,17 @@ func cmdCheck(args []string) {
 				}
 				continue
 			}
-			if r.Answer == "unsat" {
+			// claim only what discharges well under the quick timeout: an obligation that needed more than
+			// a third of it here (under the load of a rebaseline) could time out on a slower machine and
+			// would then be a false alarm - it is listed as not claimed instead
+			slow := r.Secs > slowClaimLimit
+			if r.Answer == "unsat" && !slow {
 				lines = append(lines, r.ID)
 			} else {
 				lines = append(lines, "! "+r.ID)
+				if slow && r.Answer == "unsat" {
+					fmt.Printf("not claimed (discharged, but only after %.0f s by %s): %s\n", r.Secs, r.Solver, r.ID)
+				}
 			}
 		}
 		os.MkdirAll(filepath.Dir(blPath), 0o755)
